@@ -84,8 +84,8 @@ let pschema_of = function "1" -> PBasic | _ -> PDetailed
 let sform_of = function
   | "bignum" -> SBigNum | "int" -> SInt | "bigint" -> SBigInt | "hash28" -> SHash (n_of_int 28)
   | "hash32" -> SHash (n_of_int 32) | "assetname" -> SAssetName | x -> raise (Syntax ("type " ^ x))
-let p_sval t () : sval = match t with SBigNum | SInt | SBigInt -> VNum (z_of_string (next ())) | _ -> VBytes (hexb ())
-let s_sval b = function VNum z -> Buffer.add_string b (string_of_z z) | VBytes x -> Buffer.add_string b (hex_of_bytes x)
+let p_sval t () : sval = match t with SBigNum | SInt | SBigInt -> SVNum (z_of_string (next ())) | _ -> SVBytes (hexb ())
+let s_sval b = function SVNum z -> Buffer.add_string b (string_of_z z) | SVBytes x -> Buffer.add_string b (hex_of_bytes x)
 
 let show_verdict = function
   | Holds -> "holds" | NA -> "na"
@@ -97,6 +97,8 @@ let show_verdict = function
       | _ -> "fails:-")
 
 let set (l : string list) = toks := Array.of_list l; pos := 0
+let coqstr (s : string) = List.init (String.length s) (fun i -> n_of_int (Char.code s.[i]))
+let depth3 = nat_of_int 3
 
 (* two-leg observation where the second leg is run on the first leg's result *)
 let two_legs (r1 : 'a result) (s1 : Buffer.t -> 'a -> unit) (second : 'a -> string) : string =
@@ -176,6 +178,24 @@ let handle (case : string list) (impl : string list) : string * string =
     let i1 = (match parse_leg p_json with Some r -> r | None -> OutOfFuel) in
     sep (); let i2 = (match parse_leg (p_sval t) with Some r -> let e = eq_flag () in Some (r, e) | None -> None) in
     (model, show_verdict (judge_sfs t v i1 i2))
+  | "tj" ->
+    let name = next () in let hexs = next () in
+    (match lookup_serde (coqstr name) (j_table depth3) with
+     | None -> ("skip unannotated-type", "na")
+     | Some (sch, a) ->
+       (match dec sch (bytes_of_hex hexs) with
+        | Ok (v, []) ->
+          let j = j_json a v in
+          let model =
+            if not (j_wf a v) then "err"      (* outside the domain of the annotation: serde cannot write the value *)
+            else "ok " ^ show s_json j ^ " ; " ^ (match j_of_json a j with
+                | Ok v' -> "ok " ^ hex_of_bytes (enc sch v')
+                | r -> show_leg s_hex (match r with Err -> Err | Panic -> Panic | _ -> OutOfFuel)) in
+          set impl;
+          let i1 = (match parse_leg p_json with Some r -> r | None -> OutOfFuel) in
+          sep (); let i2 = (match parse_leg hexb with Some r -> let e = eq_flag () in Some (r, e) | None -> None) in
+          (model, show_verdict (judge_tj sch a v i1 i2))
+        | _ -> ("skip model-decode", "na")))
   | "ty" ->
     (* observation stream: no model of the serde derive expansion; the judge reads the implementation's flags *)
     (match impl with
@@ -187,11 +207,42 @@ let handle (case : string list) (impl : string list) : string * string =
      | [] -> ("skip typed-observation", "fails:-"))
   | _ -> ("driver-badcase", "na")
 
+(* typed cases for annotated types: the JSON the model writes travels inside the case line *)
+let add_tj_cases (tier : string) (file : string) : unit =
+  let ic = open_in file in
+  let lines = ref [] in
+  (try while true do lines := input_line ic :: !lines done with End_of_file -> ());
+  close_in ic;
+  let oc = open_out_gen [Open_append] 0o644 file in
+  let k = ref 0 in
+  List.iter (fun line ->
+      incr k;
+      match split_ws line with
+      | ["rt"; name; hexs] when tier <> "thorough" || !k mod 2 = 0 ->
+        (match lookup_serde (coqstr name) (j_table depth3) with
+         | Some (sch, a) ->
+           (match (try dec sch (bytes_of_hex hexs) with _ -> Err) with
+            | Ok (v, []) ->
+              let j = j_json a v in
+              Printf.fprintf oc "tj %s %s %s\n" name hexs (show s_json j);
+              (* and the value that comes back from that JSON (maps in key order, default wire forms), when different *)
+              (match (try j_of_json a j with _ -> Err) with
+               | Ok v' when j_wf a v && not (val_eqb v v') && wfv sch v' ->
+                 Printf.fprintf oc "tj %s %s %s\n" name (hex_of_bytes (enc sch v')) (show s_json (j_json a v'))
+               | _ -> ())
+            | _ -> ())
+         | None -> ())
+      | _ -> ()) (List.rev !lines);
+  close_out oc
+
 let gen_mode seed tier out =
   (* typed-value encodings come from the C01 schema walk (its driver lives next to this one) *)
   let c01 = Filename.concat (Filename.dirname Sys.executable_name) "c01_driver" in
-  if Sys.file_exists c01 then exit (Sys.command (Printf.sprintf "%s gen %s %s %s" (Filename.quote c01) seed tier (Filename.quote out)))
-  else (close_out (open_out out); exit 0)
+  if Sys.file_exists c01 then begin
+    let rc = Sys.command (Printf.sprintf "%s gen %s %s %s" (Filename.quote c01) seed tier (Filename.quote out)) in
+    if rc <> 0 then exit rc;
+    add_tj_cases tier out; exit 0
+  end else (close_out (open_out out); exit 0)
 
 let () =
   if Array.length Sys.argv >= 5 && Sys.argv.(1) = "gen" then gen_mode Sys.argv.(2) Sys.argv.(3) Sys.argv.(4)
